@@ -50,7 +50,6 @@ func funcMapEntry(p *packages.Package, key string) ast.Expr {
 }
 
 func funcMapEntries(p *packages.Package) map[string]ast.Expr {
-	out := map[string]ast.Expr{}
 	inits := map[types.Object]ast.Expr{} // package-level variables -> initialiser
 	var root ast.Expr
 	for _, f := range p.Syntax {
@@ -72,49 +71,175 @@ func funcMapEntries(p *packages.Package) map[string]ast.Expr {
 			}
 		}
 	}
-	dup := false
-	add := func(cl *ast.CompositeLit) {
-		for _, el := range cl.Elts {
-			kv, ok := el.(*ast.KeyValueExpr)
-			if !ok {
-				continue
-			}
-			tv := p.TypesInfo.Types[kv.Key]
-			if tv.Value != nil && tv.Value.Kind() == constant.String {
-				k := constant.StringVal(tv.Value)
-				if _, seen := out[k]; seen {
-					dup = true
-				}
-				out[k] = kv.Value
-			}
-		}
-	}
-	switch x := ast.Unparen(root).(type) {
-	case *ast.CompositeLit:
-		add(x)
-	case *ast.CallExpr:
-		// FuncMap = merge(groupA, groupB, ...): the union of the groups' literals, when merge copies
-		// every entry of every argument into a fresh map and returns it
-		fn := calleeFunc(p.TypesInfo, x)
-		if fn == nil || !isMapUnion(p, pkgFuncs(p)[fn]) {
-			return map[string]ast.Expr{}
-		}
-		for _, a := range x.Args {
-			id, ok := ast.Unparen(a).(*ast.Ident)
-			if !ok {
-				return map[string]ast.Expr{}
-			}
-			cl, ok := ast.Unparen(inits[p.TypesInfo.Uses[id]]).(*ast.CompositeLit)
-			if !ok {
-				return map[string]ast.Expr{}
-			}
-			add(cl)
-		}
-	}
-	if dup {
-		return map[string]ast.Expr{} // a key defined twice: which one wins is not decided here
+	ev := &mapEval{p: p, inits: inits, funcs: pkgFuncs(p)}
+	out := ev.expr(root, nil, 0)
+	if out == nil || ev.bad {
+		return map[string]ast.Expr{} // not decidable here (or a key defined twice): reported as FuncMap missing
 	}
 	return out
+}
+
+// mapEval evaluates the small language in which a string-keyed map of functions is put together:
+// composite literals, package-level variables initialised by such expressions, make, and calls of
+// functions of the package whose bodies only create a map, copy their (possibly variadic) map
+// arguments into one (maps.Copy in a range, or directly), assign constant keys and return a map.
+type mapEval struct {
+	p     *packages.Package
+	inits map[types.Object]ast.Expr
+	funcs map[*types.Func]*ast.FuncDecl
+	bad   bool
+}
+
+func (ev *mapEval) put(dst map[string]ast.Expr, k string, v ast.Expr) {
+	if _, dup := dst[k]; dup {
+		ev.bad = true // which definition wins is not decided here
+	}
+	dst[k] = v
+}
+
+func (ev *mapEval) expr(e ast.Expr, env map[types.Object]map[string]ast.Expr, depth int) map[string]ast.Expr {
+	info := ev.p.TypesInfo
+	if e == nil || depth > 4 {
+		return nil
+	}
+	switch x := ast.Unparen(e).(type) {
+	case *ast.CompositeLit:
+		out := map[string]ast.Expr{}
+		for _, el := range x.Elts {
+			kv, ok := el.(*ast.KeyValueExpr)
+			if !ok {
+				return nil
+			}
+			tv := info.Types[kv.Key]
+			if tv.Value == nil || tv.Value.Kind() != constant.String {
+				return nil
+			}
+			ev.put(out, constant.StringVal(tv.Value), kv.Value)
+		}
+		return out
+	case *ast.Ident:
+		obj := info.Uses[x]
+		if m, ok := env[obj]; ok {
+			return m
+		}
+		if init, ok := ev.inits[obj]; ok {
+			return ev.expr(init, nil, depth+1)
+		}
+	case *ast.CallExpr:
+		if calleeName(info, x) == "builtin.make" {
+			return map[string]ast.Expr{}
+		}
+		fn := calleeFunc(info, x)
+		if fn == nil || ev.funcs[fn] == nil {
+			return nil
+		}
+		fd := ev.funcs[fn]
+		if fd.Recv != nil {
+			return nil
+		}
+		// bind parameters
+		local := map[types.Object]map[string]ast.Expr{}
+		var variadic []map[string]ast.Expr
+		var variadicObj types.Object
+		i := 0
+		for _, f := range fd.Type.Params.List {
+			_, isVar := f.Type.(*ast.Ellipsis)
+			for _, n := range f.Names {
+				if isVar {
+					variadicObj = info.Defs[n]
+					for ; i < len(x.Args); i++ {
+						m := ev.expr(x.Args[i], env, depth+1)
+						if m == nil {
+							return nil
+						}
+						variadic = append(variadic, m)
+					}
+				} else if i < len(x.Args) {
+					m := ev.expr(x.Args[i], env, depth+1)
+					if m == nil {
+						return nil
+					}
+					local[info.Defs[n]] = m
+					i++
+				}
+			}
+		}
+		for _, st := range fd.Body.List {
+			switch y := st.(type) {
+			case *ast.AssignStmt:
+				if len(y.Lhs) != 1 || len(y.Rhs) != 1 {
+					return nil
+				}
+				switch l := ast.Unparen(y.Lhs[0]).(type) {
+				case *ast.Ident:
+					m := ev.expr(y.Rhs[0], local, depth+1)
+					if m == nil {
+						return nil
+					}
+					cp := map[string]ast.Expr{}
+					for k, v := range m {
+						cp[k] = v
+					}
+					local[objOf(info, l)] = cp
+				case *ast.IndexExpr:
+					id, ok := ast.Unparen(l.X).(*ast.Ident)
+					tv := info.Types[l.Index]
+					if !ok || local[info.Uses[id]] == nil || tv.Value == nil || tv.Value.Kind() != constant.String {
+						return nil
+					}
+					ev.put(local[info.Uses[id]], constant.StringVal(tv.Value), y.Rhs[0])
+				default:
+					return nil
+				}
+			case *ast.RangeStmt:
+				id, ok := ast.Unparen(y.X).(*ast.Ident)
+				val, okv := y.Value.(*ast.Ident)
+				if !ok || !okv || info.Uses[id] != variadicObj || len(y.Body.List) != 1 {
+					return nil
+				}
+				for _, g := range variadic {
+					local[info.Defs[val]] = g
+					if !ev.copyStmt(y.Body.List[0], local) {
+						return nil
+					}
+				}
+			case *ast.ExprStmt:
+				if !ev.copyStmt(y, local) {
+					return nil
+				}
+			case *ast.ReturnStmt:
+				if len(y.Results) != 1 {
+					return nil
+				}
+				return ev.expr(y.Results[0], local, depth+1)
+			default:
+				return nil
+			}
+		}
+	}
+	return nil
+}
+
+// copyStmt: maps.Copy(dst, src) on known maps.
+func (ev *mapEval) copyStmt(st ast.Stmt, local map[types.Object]map[string]ast.Expr) bool {
+	info := ev.p.TypesInfo
+	es, ok := st.(*ast.ExprStmt)
+	if !ok {
+		return false
+	}
+	call, ok := es.X.(*ast.CallExpr)
+	if !ok || calleeName(info, call) != "maps.Copy" || len(call.Args) != 2 {
+		return false
+	}
+	d, ok0 := ast.Unparen(call.Args[0]).(*ast.Ident)
+	s, ok1 := ast.Unparen(call.Args[1]).(*ast.Ident)
+	if !ok0 || !ok1 || local[info.Uses[d]] == nil || local[info.Uses[s]] == nil {
+		return false
+	}
+	for k, v := range local[info.Uses[s]] {
+		ev.put(local[info.Uses[d]], k, v)
+	}
+	return true
 }
 
 // isMapUnion: func(groups ...M) M { m := M{}; for _, g := range groups { maps.Copy(m, g) }; return m }
@@ -317,8 +442,9 @@ func withCallees(p *packages.Package, fd *ast.FuncDecl) []*ast.FuncDecl {
 	out := []*ast.FuncDecl{fd}
 	for i := 0; i < len(out) && len(out) < 12; i++ {
 		ast.Inspect(out[i].Body, func(n ast.Node) bool {
-			if call, ok := n.(*ast.CallExpr); ok {
-				if fn := calleeFunc(p.TypesInfo, call); fn != nil {
+			// calls and references (method values, functions stored in a field) alike
+			if id, ok := n.(*ast.Ident); ok {
+				if fn, ok := p.TypesInfo.Uses[id].(*types.Func); ok {
 					if d := funcs[fn]; d != nil && !seen[d] {
 						seen[d] = true
 						out = append(out, d)
@@ -368,4 +494,132 @@ func pkgGetters(p *packages.Package) map[*types.Func]string {
 		}
 	}
 	return out
+}
+
+// pkgSingleReturn maps the package's functions whose whole body is one `return <expr>` (one result,
+// no function literal inside) to their declarations.
+func pkgSingleReturn(p *packages.Package) map[*types.Func]*ast.FuncDecl {
+	out := map[*types.Func]*ast.FuncDecl{}
+	for fn, fd := range pkgFuncs(p) {
+		if len(fd.Body.List) != 1 || fd.Type.Results == nil || fd.Type.Results.NumFields() != 1 {
+			continue
+		}
+		rs, ok := fd.Body.List[0].(*ast.ReturnStmt)
+		if !ok || len(rs.Results) != 1 {
+			continue
+		}
+		lit := false
+		ast.Inspect(rs.Results[0], func(n ast.Node) bool {
+			if _, ok := n.(*ast.FuncLit); ok {
+				lit = true
+			}
+			return true
+		})
+		if !lit {
+			out[fn] = fd
+		}
+	}
+	// a function whose expression calls a multi-statement function of the package does real work on
+	// behalf of its name (a documented accessor delegating to a helper): it is not printed inline
+	funcs := pkgFuncs(p)
+	for changed := true; changed; {
+		changed = false
+		for fn, fd := range out {
+			drop := false
+			ast.Inspect(fd.Body, func(n ast.Node) bool {
+				if call, ok := n.(*ast.CallExpr); ok {
+					if c := calleeFunc(p.TypesInfo, call); c != nil && funcs[c] != nil && out[c] == nil {
+						drop = true
+					}
+				}
+				return true
+			})
+			if drop {
+				delete(out, fn)
+				changed = true
+			}
+		}
+	}
+	return out
+}
+
+// pkgUnexported maps the package's unexported functions and methods to their declarations.
+func pkgUnexported(p *packages.Package) map[*types.Func]*ast.FuncDecl {
+	out := map[*types.Func]*ast.FuncDecl{}
+	for fn, fd := range pkgFuncs(p) {
+		if !fn.Exported() {
+			out[fn] = fd
+		}
+	}
+	return out
+}
+
+var ownerCache = map[*ast.FuncDecl][]string{}
+
+// ownerChain lists the keys under which something inside fd may be reviewed: fd itself, then, while
+// the function is unexported and referenced from exactly one other function of its package, that
+// caller (bounded). Reviewed tables are consulted with the first key of the chain they know, so
+// extracting part of a reviewed function into a helper, or inlining such a helper again, does not
+// detach a site from its entry.
+func ownerChain(p *packages.Package, fd *ast.FuncDecl) []string {
+	if k, ok := ownerCache[fd]; ok {
+		return k
+	}
+	cur := fd
+	funcs := pkgFuncs(p)
+	chain := []string{funcKey(p, fd)}
+	for depth := 0; depth < 3; depth++ {
+		fn, _ := p.TypesInfo.Defs[cur.Name].(*types.Func)
+		if fn == nil || fn.Exported() || cur.Name.Name == "main" || cur.Name.Name == "init" {
+			break
+		}
+		var caller *ast.FuncDecl
+		single := true
+		for _, g := range funcs {
+			if g == cur {
+				continue
+			}
+			ast.Inspect(g.Body, func(n ast.Node) bool {
+				id, ok := n.(*ast.Ident)
+				if !ok || p.TypesInfo.Uses[id] != fn {
+					return true
+				}
+				if caller == nil {
+					caller = g
+				} else if caller != g {
+					single = false
+				}
+				return true
+			})
+		}
+		for _, f := range p.Syntax {
+			for _, d := range f.Decls {
+				if gd, ok := d.(*ast.GenDecl); ok {
+					ast.Inspect(gd, func(n ast.Node) bool {
+						if id, ok := n.(*ast.Ident); ok && p.TypesInfo.Uses[id] == fn {
+							single = false
+						}
+						return true
+					})
+				}
+			}
+		}
+		if !single || caller == nil {
+			break
+		}
+		cur = caller
+		chain = append(chain, funcKey(p, cur))
+	}
+	ownerCache[fd] = chain
+	return chain
+}
+
+// ownedBy: is owner one of fd's owner keys?
+func ownedBy(p *packages.Package, fd *ast.FuncDecl, owner string) bool {
+	for _, k := range ownerChain(p, fd) {
+		if k == owner {
+			return true
+		}
+	}
+	return false
 }
